@@ -93,6 +93,15 @@ CHECKS = [
      "technique": "property-based testing over generated run histories (Hypothesis draws configuration, seed, budget) with a per-event invariant monitor on the real mediator loop",
      "text": 'Generated sampling intervals (incl. 0.1/0.3/0.7, first sample at zero or one interval), end times in [2,12]: k-th write right after a commit at k*interval within (k+1)*2^-52*(1+interval), every moving unit in the written state time-stamped exactly at the sample time, end-of-run event last at Time.from_float(end), number of samples == number of nominal times before the end.',
      "note": "Trusted: vlib/monitor.py (harness-side recomputation of trajectories with the code's own Time subtraction), instance-attribute wrappers of vlib/engine.py, private reads Mediator._state_handler/_scheduler/_activator/_input_output_handler and Activator._taggers/_internal_states. Runs with cell systems are not a pure function of the seed (sets of Cell objects hashed by address): a violation found is real, its replay may need repeating. Generated configurations edit parameters of shipped files only; hard_disk_dipoles(.ini|_cells.ini) need MDAnalysis and are not runnable here."},
+    {"id": "C06", "engine": "hypothesis-runner", "design_ref": "DESIGN.md §3 C06",
+     "technique": "model-based stateful property testing (Hypothesis RuleBasedStateMachine: heap vs list scheduler vs dictionary model) + coverage-guided fuzzing (libFuzzer, ASan+UBSan) of heap.c with an in-target reference model",
+     "text": "Generated push/trash/get/pickle/burst/counter-overflow histories drive HeapScheduler, ListScheduler and a dictionary model "
+             "together; after every get the returned handler must be live with the minimal (quotient, remainder); empty gets raise "
+             "SchedulerError. The raw C heap is fuzzed byte-wise (insert/root/delete_events/entry, tie-heavy time alphabet, fills up to "
+             "the exact reallocation capacity) with an array model inside the target and sanitizers for memory safety.",
+     "note": "Trusted: the dictionary model, dill for the round trip, clang sanitizers. White-box step: HeapScheduler._minimal_valid_counter "
+             "is preset (never lowered) to 2^32-k to reach the overflow branch. libFuzzer campaigns are pinned by -seed/-runs only approximately; "
+             "a saved crashing input is the reproducible unit (replay re-runs it)."},
 ]
 
 _ALL = ["C%02d" % i for i in range(1, 21)]
